@@ -314,6 +314,13 @@ impl Prng {
     }
 }
 
+/// Boundary values for driver key universes: under the identity hasher they are boundary HASH values (all ones, top
+/// bit only, 2^32 +- 1, ...), which exercise modulus / shift / leading-zero arithmetic at its edges.
+pub fn boundary_key(rng: &mut Prng) -> u64 {
+    const B: [u64; 10] = [u64::MAX, u64::MAX - 1, 1 << 63, (1 << 63) - 1, (1 << 63) + 1, 1 << 32, (1 << 32) - 1, u32::MAX as u64 + 2, 0, 1];
+    B[rng.below(B.len() as u64) as usize]
+}
+
 // ---------------------------------------------------------------------------------------------
 // I/O
 type SharedW = std::sync::Arc<std::sync::Mutex<BufWriter<Box<dyn Write + Send>>>>;
